@@ -73,6 +73,7 @@ struct iauth_class_rule {
     char *xreply_ok;
     irc_inaddr address;
     unsigned int address_bits;
+    int address_invalid;
     unsigned int assigned;
     int trust_username;
 };
@@ -169,8 +170,10 @@ CONF_UPDATE_HOOK(iauth_class_conf_changed)
         rule->class = xstrdup(iauth_class_rule_item(obj, "class"));
         rule->account = xstrdup(iauth_class_rule_item(obj, "account"));
         val = iauth_class_rule_item(obj, "address");
-        if (val)
-            irc_pton(&rule->address, &rule->address_bits, val, 0);
+        if (val && !irc_pton(&rule->address, &rule->address_bits, val, 0)) {
+            log_message(iauth_class_log, LOG_WARNING, "Rule %s: cannot parse address '%s'; the rule will match nobody.", rule->name, val);
+            rule->address_invalid = 1;
+        }
         rule->username = xstrdup(iauth_class_rule_item(obj, "username"));
         rule->hostname = xstrdup(iauth_class_rule_item(obj, "hostname"));
         rule->xreply_ok = xstrdup(iauth_class_rule_item(obj, "xreply_ok"));
@@ -258,6 +261,9 @@ static IAUTH_RULE_FUNC(iauth_class_rule_check)
         if (fnmatch(rule->account, sep, 0))
             return 0;
     }
+
+    if (rule->address_invalid)
+        return 0;
 
     if (rule->address_bits && !irc_check_mask(&req->remote_addr, &rule->address, rule->address_bits))
         return 0;
